@@ -52,12 +52,17 @@ def grid_shapes(ctx):
         # quick: the boundary values every rule looks at + a seeded part of the rest
         core = [0, 1, 2, 8, 256, HALF - 1, HALF, HALF + 1, W - 2, W - 1, -1, -2, -HALF, -HALF + 1]
         rest = [v for v in lits if v not in core]
-        lits = core + rnd.sample(rest, 6)
-    lits = lits + [rnd.randrange(-HALF, W) for _ in range(3)]
+        lits = core + rnd.sample(rest, 4)
+    lits = lits + [rnd.randrange(-HALF, W) for _ in range(1 if ctx.tier != "thorough" else 3)]
     a = [("lit", v) for v in lits] + [("var", "x"), ("var", "y"), ("var", "calldatasize"), ("cx", 1),
                                       ("bin", "add", ("var", "x"), ("lit", 1)), ("un", "iszero", ("var", "x"))]
-    b = [("lit", v) for v in lits] + [("var", "x"), ("var", "y"), ("cx", 1), ("cx", 2),
-                                      ("bin", "add", ("var", "x"), ("lit", 1))]
+    blits = lits
+    if ctx.tier != "thorough":
+        # quick: fewer second-operand literals (the literal x literal folds are covered by arith_fold_sound + the EVM folds)
+        bcore = [0, 1, 2, 256, HALF - 1, HALF, W - 2, W - 1, -1, -HALF, -HALF + 1]
+        blits = bcore + rnd.sample([v for v in lits if v not in bcore], 2)
+    b = [("lit", v) for v in blits] + [("var", "x"), ("var", "y"), ("cx", 1), ("cx", 2),
+                                       ("bin", "add", ("var", "x"), ("lit", 1))]
     return lits, a, b
 
 
@@ -210,7 +215,7 @@ def tree_tie(ctx, differ):
     from vyper.codegen.ir_node import IRnode
     from vyper.compiler.settings import Settings, anchor_settings
     rnd = ctx.rng("trees")
-    want = 700 if ctx.tier != "thorough" else 6000
+    want = 500 if ctx.tier != "thorough" else 6000
     cases = []
     while len(cases) < want:
         t = c15_tree.gen_tree(rnd, rnd.choice([2, 3, 4, 5]))
@@ -293,7 +298,7 @@ def peephole_tie(ctx):
     (Peephole.v, JumpOpt.v) on generated stack code / labelled code containing every pattern and on the unoptimised
     assemblies (runtime + deploy) the compiler emits for the corpus contracts."""
     rnd = ctx.rng("asm")
-    k = 50 if ctx.tier != "thorough" else 1000
+    k = 40 if ctx.tier != "thorough" else 1000
     asms = [("gen", c15_asm.gen_asm(rnd, rnd.randrange(3, 40))) for _ in range(k)]
     asms += [("genl", c15_asm.gen_labelled_asm(rnd, rnd.randrange(3, 45))) for _ in range(2 * k)]
     names = None
@@ -305,6 +310,15 @@ def peephole_tie(ctx):
         corpus = c15_asm.corpus_assemblies(names)
     except Exception:  # noqa
         corpus = []
+    if ctx.tier != "thorough":
+        # quick: at most ~1500 items of compiler-emitted assembly (the whole-pipeline model is quadratic)
+        corpus.sort(key=lambda p: len(p[1]))
+        kept, tot = [], 0
+        for p_ in corpus:
+            if tot + len(p_[1]) <= 1500 or not kept:
+                kept.append(p_)
+                tot += len(p_[1])
+        corpus = kept
     asms += corpus
     has_jump = (COQ / "C15" / "JumpOpt.vo").exists()
     passes = [("_stack_peephole_opts", "show_items (stack_peephole {})"), ("_merge_iszero", "show_items (merge_iszero {})")]
